@@ -515,19 +515,22 @@ fn limits_for(n: usize) -> Vec<(Option<u64>, String)> {
 
 pub fn scenarios(seed: u64, quick: bool) -> Vec<Scenario> {
     let mut rng = Rng::derive(seed, "c15-scen", 0, 0);
-    let mut ns: Vec<(usize, String)> = [0usize, 1, 2, 99, 100, 101]
-        .iter()
-        .map(|n| (*n, n.to_string()))
+    // every N up to 300 (exhaustive in N for the small collections)
+    let mut ns: Vec<(usize, String)> = (0usize..=300)
+        .map(|n| {
+            let c = match n {
+                0 | 1 | 2 | 99 | 100 | 101 => n.to_string(),
+                3..=98 => "3..98".to_string(),
+                _ => "102..300".to_string(),
+            };
+            (n, c)
+        })
         .collect();
-    let n_rand_small = if quick { 6 } else { 10 };
-    for _ in 0..n_rand_small {
-        ns.push((3 + rng.usize(298), "rand<=300".into()));
-    }
     if !quick {
         for n in [9999usize, 10_000, 10_001] {
             ns.push((n, n.to_string()));
         }
-        for _ in 0..8 {
+        for _ in 0..10 {
             ns.push((301 + rng.usize(25_000 - 300), "rand<=25000".into()));
         }
         ns.push((25_000, "25000".into()));
@@ -588,7 +591,7 @@ pub fn scenarios(seed: u64, quick: bool) -> Vec<Scenario> {
         }
     }
     // random (N, limit) pairs: N mod limit and N vs limit classes at large
-    let extra = if quick { 1500 } else { 9000 };
+    let extra = if quick { 3000 } else { 150_000 };
     for _ in 0..extra {
         let big = !quick && rng.chance(1, 3);
         let n = if big { rng.usize(25_001) } else { rng.usize(301) };
